@@ -180,6 +180,26 @@ def globMatchB : List Tok → List Char → Bool
     | [] => false
     | d :: s₂ => c == d && globMatchB ts s₂
 
+/-! ## Use of glob sets: `glob(include, exclude)` (project_builtins.go, lib/os/glob.go) and ignore lists -/
+
+/-- the filter both `glob()` builtins apply to every regular file's relative path -/
+def globSelect (inc exc : RE) (files : List (List Char)) : List (List Char) :=
+  files.filter fun p => matchString inc p && !matchString exc p
+
+/-- `Project.loadPackage`: a package directory is loaded iff neither it nor any ancestor directory is ignored
+(`ignored` is consulted on the way down and an ignored directory is not descended into).
+`dirs` are the `/`-separated components of the package path below the root; the root itself is `[]`. -/
+def prefixes : List (List Char) → List (List (List Char))
+  | [] => [[]]
+  | c :: cs => [] :: (prefixes cs).map (c :: ·)
+
+def joinPath (cs : List (List Char)) : List Char := List.intercalate ['/'] cs
+
+def packageLoaded (ignore : Option RE) (dirs : List (List Char)) : Bool :=
+  match ignore with
+  | none => true
+  | some r => (prefixes dirs).all fun pre => !matchString r (joinPath pre)
+
 /-! ## Canonical text of a tree, compared with Go's `regexp/syntax` parse tree of the emitted text -/
 
 def flatSeq : RE → List RE
